@@ -71,35 +71,32 @@ Proof. exact run_saved. Qed.
 
 (* ------------------------------------------------------------ terminate *)
 
-(* c29_terminate, partial. For every schedule: after Terminate returns nil the
-   session file is absent, no endpoint activity ever occurs again, every
-   command called afterwards fails, a new manager does not load the session;
-   and the archive file is absent too unless a Reset overlapped the Terminate
-   (lenient form). *)
-Theorem c29_terminate_partial : forall md manual sched st tr,
-  run (init_state md manual) sched = Some (st, tr) -> check_terminate false tr = true.
-Proof. exact run_terminate_lenient. Qed.
-
-(* the full statement: also the archive file is absent after Terminate *)
-Definition c29_terminate_full_statement : Prop :=
-  forall md manual sched st tr,
-    run (init_state md manual) sched = Some (st, tr) -> check_terminate true tr = true.
-
-(* it holds outside the known class (no Reset interval overlapped the interval
-   of a Terminate that returned nil) ... *)
-Theorem c29_terminate_outside_known_class : forall md manual sched st tr,
-  run (init_state md manual) sched = Some (st, tr) -> reset_overlapped_terminate tr = false ->
-  check_terminate true tr = true.
+(* c29_terminate (full). For every schedule of the machine that models the
+   code as it is: after Terminate returns nil the session file AND the archive
+   file are absent, no endpoint activity ever occurs again, every command
+   called afterwards fails, and a new manager does not load the session --
+   whatever other commands overlapped the Terminate. *)
+Theorem c29_terminate : forall md manual sched st tr,
+  run (init_state md manual) sched = Some (st, tr) -> check_terminate true tr = true.
 Proof. exact run_terminate_strict. Qed.
 
-(* ... and is refuted inside it: controller.reset writes the archive without
-   looking at c.disabled, so a Reset that selected the controller before the
-   Terminate finished leaves an archive file behind *)
-Theorem c29_terminate_refuted :
-  exists st tr, run (init_state TwoWaySafe true) race_schedule = Some (st, tr)
+(* The code as it was before commit 34fa8c4 (controller.reset did not look at
+   c.disabled; the machine with cfg_fixed = false): a Reset that had selected
+   the controller before the Terminate finished wrote the archive afterwards.
+   On the code as it is, the same schedule ends with the Reset refused and
+   nothing left behind. *)
+Theorem c29_terminate_refuted_unfixed :
+  exists st tr, run (init_state_unfixed TwoWaySafe true) race_schedule = Some (st, tr)
                 /\ check_terminate true tr = false /\ reset_overlapped_terminate tr = true
+                /\ In (Rt 3 CReset true) tr
                 /\ arch_file st = Some None /\ sess_file st = None.
-Proof. exact terminate_strict_refuted. Qed.
+Proof. exact terminate_strict_refuted_unfixed. Qed.
+
+Example c29_race_schedule_on_repaired_code :
+  exists st tr, run (init_state TwoWaySafe true) race_schedule = Some (st, tr)
+                /\ In (Rt 3 CReset false) tr /\ check_terminate true tr = true
+                /\ arch_file st = None /\ sess_file st = None.
+Proof. exact race_schedule_fixed. Qed.
 
 Theorem c29_terminate_sound : forall strict pre t post,
   check_terminate strict (pre ++ Rt t CTerminate true :: post) = true ->
@@ -142,21 +139,10 @@ Proof. exact run_reset. Qed.
 (* ------------------------------------------------- the checker as a whole *)
 
 (* the model's own traces pass the checker that is applied to the recorded
-   histories: the lenient form always, the strict form outside the known
-   class; and the class predicate computed by the harness (only the strict
-   terminate monitor rejects) lies inside the class of the refutation *)
+   histories (all five monitors, the terminate monitor in its strict form) *)
 Theorem c29_model_passes_checker : forall md manual sched st tr,
-  run (init_state md manual) sched = Some (st, tr) -> check_c29_lenient md tr = true.
-Proof. exact run_check_c29_lenient. Qed.
-
-Theorem c29_model_passes_strict_checker : forall md manual sched st tr,
-  run (init_state md manual) sched = Some (st, tr) -> reset_overlapped_terminate tr = false ->
-  check_c29_events md tr = true.
+  run (init_state md manual) sched = Some (st, tr) -> check_c29_events md tr = true.
 Proof. exact run_check_c29. Qed.
-
-Theorem c29_known_class : forall md tr,
-  known_c29_events md tr = true -> reset_overlapped_terminate tr = true.
-Proof. exact known_class_is_overlap. Qed.
 
 (* the hypotheses are satisfiable on a non-trivial execution: create, a cycle,
    pause while polling, a flush refused while paused, restart, resume, a
@@ -175,14 +161,11 @@ Print Assumptions c29_pause_sound.
 Print Assumptions c29_flush_wait.
 Print Assumptions c29_flush_sound.
 Print Assumptions c29_flush_saved_before_answer.
-Print Assumptions c29_terminate_partial.
-Print Assumptions c29_terminate_outside_known_class.
-Print Assumptions c29_terminate_refuted.
+Print Assumptions c29_terminate.
+Print Assumptions c29_terminate_refuted_unfixed.
 Print Assumptions c29_terminate_sound.
 Print Assumptions c29_terminate_sound_later_commands_fail.
 Print Assumptions c29_reset_safe_write.
 Print Assumptions c29_reset_safe_no_endpoint_call.
 Print Assumptions c29_reset_safe.
 Print Assumptions c29_model_passes_checker.
-Print Assumptions c29_model_passes_strict_checker.
-Print Assumptions c29_known_class.
